@@ -235,6 +235,12 @@ where
     while let Some(res) = poll_fn(|cx| body.as_mut().poll_next(cx)).await {
         let mut chunk = res.map_err(|err| DispatchError::ResponseBody(err.into()))?;
 
+        // nothing to send for an empty chunk; reserving zero capacity would never be answered
+        // by `poll_capacity` and the stream would hang
+        if chunk.is_empty() {
+            continue;
+        }
+
         'send: loop {
             let chunk_size = cmp::min(chunk.len(), CHUNK_SIZE);
 
